@@ -49,3 +49,13 @@ Example c04_example_nested_ihl15 :
         ([69;0;0;56;0;0;64;0;250;1;0;0;10;0;0;9;10;0;0;1] ++ [11;0;0;0;0;0;0;0] ++
          [79;0;0;84;0;0;64;0;1;1;0;0;10;0;0;1;10;0;0;2] ++ [8;0;0;0;18;52;130;155]) = Err EPacket.
 Proof. vm_compute. reflexivity. Qed.
+
+(* the array of pending TCP probe sockets: polling it never faults and never grows it *)
+From TV Require Net.TcpSockets Proofs.TcpSocketsProofs.
+Theorem c04_tcp_socket_array_total : forall c now timeout l f,
+  snd (TcpSockets.recv_tcp_sockets_list c now timeout l) <> Fault f /\
+  (length (fst (TcpSockets.recv_tcp_sockets_list c now timeout l)) <= length l)%nat.
+Proof.
+  intros c now timeout l f. split;
+    [apply TcpSocketsProofs.recv_tcp_sockets_list_no_fault|apply TcpSocketsProofs.recv_tcp_sockets_list_length].
+Qed.
